@@ -640,10 +640,11 @@ class Summary:
         self.funcs = []          # nested function summaries
         self.undefined = []      # (name, lineno)
         self.params = []
+        self.sig = None
         self.nloops = 0
 
     def term(self):
-        return ('fn', len(self.params), tuple(self.effects))
+        return ('fn', self.sig if self.sig is not None else len(self.params), tuple(self.effects))
 
 
 class PE:
@@ -1573,6 +1574,18 @@ class PE:
                 env[a.kwarg.arg] = ('sym', '**' + a.kwarg.arg)
         self.sm.params = names
         self.param_defaults = {nm: d for nm, d in zip(names, defaults)}
+        # signature: parameter names, default values (folded), *args/**kwargs, keyword-only parameters
+        dterms = []
+        for nm, d in zip(names, defaults):
+            if d is not None:
+                try:
+                    dterms.append(('dflt', nm, self.ev(d, {})))
+                except Unsupported:
+                    dterms.append(('dflt', nm, ('sym', 'default?')))
+        kwo = []
+        for x, d in zip(a.kwonlyargs, a.kw_defaults):
+            kwo.append(('kwonly', x.arg, NONE if d is None else self.ev(d, {})))
+        self.sm.sig = ('sig', tuple(C(n) for n in names), tuple(dterms), C(bool(a.vararg)), C(bool(a.kwarg)), tuple(kwo))
         effects = self.sm.effects
         t = self.exec_block(fdef.body, env, effects)
         if not t:
